@@ -319,6 +319,7 @@ func (fx *fnExec) applyContract(st *state, in ssa.Instruction, ct *Contract, inf
 		base := "r!" + sanitize(info.short)
 		r := fx.fresh(base, s)
 		fx.assume(fx.wellTyped(r, t, st.alloc))
+		fx.pendingInv = append(fx.pendingInv, [2]interface{}{r, t})
 		v := val{term: r, typ: t}
 		sv := sval{term: r, typ: t, sort: s}
 		post[fmt.Sprintf("result%d", i)] = sv
@@ -353,6 +354,11 @@ func (fx *fnExec) applyContract(st *state, in ssa.Instruction, ct *Contract, inf
 		v := cpost.eval(e.Expr)
 		fx.assume(v.term)
 	}
+	for _, pi := range fx.pendingInv {
+		// results of calls: the callee proved the invariant at its return (implicit postcondition)
+		fx.assumeObjInvOpt(st, pi[0].(string), pi[1].(types.Type), !ct.Trusted)
+	}
+	fx.pendingInv = nil
 	if ct.Trusted {
 		fx.assumptionsUsed["trusted contract: "+strings.TrimPrefix(info.key, "::")] = true
 	}
@@ -611,13 +617,13 @@ func (fx *fnExec) execBuiltin(st *state, in ssa.Instruction, b *ssa.Builtin, cc 
 		h := fx.heapGet(st, arr, srt)
 		r := fx.newRef(st)
 		A := fx.fresh("app", "(Array Int "+es+")")
-		fx.assume(fmt.Sprintf("(forall ((i Int)) (! (=> (and (<= 0 i) (< i (sl_len %s))) (= (select %s i) (select (select %s (sl_arr %s)) (+ (sl_off %s) i)))) :pattern ((select %s i))))", s.term, A, h, s.term, s.term, A))
+		fx.assume(fmt.Sprintf("(forall ((i Int)) (! (=> (and (<= 0 i) (< i (sl_len %s))) (= (select %s (at 0 i)) (select (select %s (sl_arr %s)) (at (sl_off %s) i)))) :pattern ((select %s (at 0 i)))))", s.term, A, h, s.term, s.term, A))
 		if t.constLen > 0 && t.constLen <= 8 {
 			for j := 0; j < t.constLen; j++ {
-				fx.assume(fmt.Sprintf("(= (select %s (+ (sl_len %s) %d)) (select (select %s (sl_arr %s)) (+ (sl_off %s) %d)))", A, s.term, j, h, t.term, t.term, j))
+				fx.assume(fmt.Sprintf("(= (select %s (at 0 (+ (sl_len %s) %d))) (select (select %s (sl_arr %s)) (at (sl_off %s) %d)))", A, s.term, j, h, t.term, t.term, j))
 			}
 		} else {
-			fx.assume(fmt.Sprintf("(forall ((j Int)) (! (=> (and (<= 0 j) (< j (sl_len %s))) (= (select %s (+ (sl_len %s) j)) (select (select %s (sl_arr %s)) (+ (sl_off %s) j)))) :pattern ((select (select %s (sl_arr %s)) (+ (sl_off %s) j)))))", t.term, A, s.term, h, t.term, t.term, h, t.term, t.term))
+			fx.assume(fmt.Sprintf("(forall ((j Int)) (! (=> (and (<= 0 j) (< j (sl_len %s))) (= (select %s (at 0 (+ (sl_len %s) j))) (select (select %s (sl_arr %s)) (at (sl_off %s) j)))) :pattern ((select (select %s (sl_arr %s)) (at (sl_off %s) j)))))", t.term, A, s.term, h, t.term, t.term, h, t.term, t.term))
 		}
 		fx.heapSet(st, arr, srt, "(store "+h+" "+r+" "+A+")")
 		nl := "(+ (sl_len " + s.term + ") (sl_len " + t.term + "))"
@@ -639,7 +645,79 @@ func (fx *fnExec) execBuiltin(st *state, in ssa.Instruction, b *ssa.Builtin, cc 
 
 // ---------------------------------------------------------------- stubs filled in later stages
 
-func (fx *fnExec) objInvAtReturn(st *state, x *ssa.Return) {}
+// objInvsFor returns the declared object invariants of the struct a pointer type points to.
+func (fx *fnExec) objInvsFor(t types.Type) ([]*ObjInv, types.Type) {
+	if t == nil {
+		return nil, nil
+	}
+	pt, ok := t.Underlying().(*types.Pointer)
+	if !ok {
+		return nil, nil
+	}
+	n := namedOf(pt.Elem())
+	if n == nil || n.Obj().Pkg() == nil {
+		return nil, nil
+	}
+	var out []*ObjInv
+	for _, oi := range fx.g.cs.ObjInvs {
+		if oi.Type == n.Obj().Name() && oi.Pkg == n.Obj().Pkg().Path() {
+			out = append(out, oi)
+		}
+	}
+	return out, pt.Elem()
+}
+
+func (fx *fnExec) evalObjInv(st *state, oi *ObjInv, term string, t types.Type) string {
+	c := &specCtx{fx: fx, cur: st, old: fx.entry, names: map[string]sval{"self": {term: term, typ: t, sort: "Int"}}, pkg: fx.g.typesPkg[oi.Pkg]}
+	return c.eval(oi.Expr).term
+}
+
+// assumeObjInv: outside the declaring package, every non-nil pointer to a type with declared object
+// invariants is assumed to satisfy them (they are proved at every return of the declaring package
+// and such objects are never modified after construction: see DESIGN.md, object invariants).
+func (fx *fnExec) assumeObjInv(st *state, term string, t types.Type) {
+	fx.assumeObjInvOpt(st, term, t, false)
+}
+
+func (fx *fnExec) assumeObjInvOpt(st *state, term string, t types.Type, isCallResult bool) {
+	ois, _ := fx.objInvsFor(t)
+	if len(ois) == 0 || fx.pkg == nil {
+		return
+	}
+	for _, oi := range ois {
+		if oi.Pkg == fx.pkg.Path() && !isCallResult {
+			continue
+		}
+		fx.assume("(=> (not (= " + term + " 0)) " + fx.evalObjInv(st, oi, term, t) + ")")
+		fx.assumptionsUsed[fmt.Sprintf("object invariant %s.%s [%s] assumed outside its package (proved at every return of the declaring package; objects immutable after construction)", filepathBase(oi.Pkg), oi.Type, oi.Label)] = true
+	}
+}
+
+func filepathBase(p string) string {
+	if i := strings.LastIndex(p, "/"); i >= 0 {
+		return p[i+1:]
+	}
+	return p
+}
+
+// objInvAtReturn: in the declaring package every returned pointer satisfies its type's invariants.
+func (fx *fnExec) objInvAtReturn(st *state, x *ssa.Return) {
+	if fx.pkg == nil {
+		return
+	}
+	for i, r := range x.Results {
+		ois, _ := fx.objInvsFor(r.Type())
+		for _, oi := range ois {
+			v := fx.operand(st, r)
+			goal := "(=> (not (= " + v.term + " 0)) " + fx.evalObjInv(st, oi, v.term, r.Type()) + ")"
+			props := oi.Props
+			if len(props) == 0 {
+				props = []string{"C07"}
+			}
+			fx.addObl("objinv", fmt.Sprintf("result%d:%s[%s]", i, oi.Type, oi.Label), props, goal, x.Pos(), oi.Src)
+		}
+	}
+}
 
 func (fx *fnExec) posOf(in ssa.Instruction) token.Pos { return in.Pos() }
 
